@@ -53,6 +53,10 @@ type Ctx struct {
 	Type     uint8 `json:"type"`
 	Finalize bool  `json:"finalize"`
 	StepMs   int64 `json:"step_ms"`
+	// TZ: the zone of the reader process for this case (IANA name; "" = the zone of the harness process, UTC in the check).
+	// harness logqlsql plans the statement with time.Local set to it; nothing on the data side depends on it: the writer
+	// dates the index rows by the UTC day, the reference meaning has no zone.
+	TZ string `json:"tz,omitempty"`
 }
 
 type Series struct {
@@ -1078,6 +1082,11 @@ func genDB(r *rand.Rand, qi *qinfo, c Ctx) DB {
 		}
 		tp := []int64{qtype, qtype, qtype, 0, 3 - qtype}[r.Intn(5)]
 		d := day + int64([]int{0, 0, 0, 1, 2}[r.Intn(5)])
+		if c.TZ != "" && d > day+1 {
+			// a case that runs under a process zone: more streams indexed ONLY on the first day the reader looks at (a day
+			// bound printed in a zone east of UTC is already the next day there: seeded C07-f)
+			d = day
+		}
 		db.Series = append(db.Series, Series{Day: d, Fp: fp, Labels: ls, Type: tp})
 		if r.Intn(4) == 0 { // the same series written again on another day / with another type
 			db.Series = append(db.Series, Series{Day: day - int64(r.Intn(3)), Fp: fp, Labels: ls, Type: []int64{qtype, 0, 3 - qtype}[r.Intn(3)]})
@@ -1737,6 +1746,14 @@ func dbProblem(db DB, c Ctx) string {
 	return ""
 }
 
+// processZones: the zones of the class process-zone with their offsets in the generated period (December 2023: no zone
+// below changes its offset there; the harness that plans the statement loads the zone by NAME, as TZ= does)
+var processZones = []struct {
+	name string
+	off  int
+}{{"Asia/Tokyo", 9 * 3600}, {"Asia/Tokyo", 9 * 3600}, {"Pacific/Kiritimati", 14 * 3600}, {"Australia/Sydney", 11 * 3600},
+	{"Europe/Berlin", 3600}, {"Asia/Kolkata", 19800}, {"America/New_York", -5 * 3600}, {"Pacific/Pago_Pago", -11 * 3600}, {"UTC", 0}}
+
 var mode = flag.String("mode", "gen", "gen | enrich | regroups | dbselftest")
 var ndb = flag.Int("dbs", 6, "databases per case (enrich)")
 
@@ -1893,11 +1910,16 @@ func main() {
 			if r.Intn(6) == 0 { // windows next to midnight: the FormatFromDate margin
 				from = (int64(19700+r.Intn(30))*86400 + int64(r.Intn(3600))) * 1e9
 			}
-			out.Put(Case{ID: i, Query: q, Class: class, Runs: 1, Ctx: Ctx{
+			c := Case{ID: i, Query: q, Class: class, Runs: 1, Ctx: Ctx{
 				FromNs: from, ToNs: from + int64(1+r.Intn(7200))*1e9,
 				Limit: []int64{0, 0, 1, 2, 3, 100}[r.Intn(6)], Asc: r.Intn(2) == 0, Cluster: r.Intn(4) == 0,
 				Type: []uint8{0, 1, 1, 2}[r.Intn(4)], Finalize: r.Intn(6) != 0, StepMs: 1000,
-			}})
+			}}
+			// one case in five is planned under a process zone (a choice that draws nothing from r: the cases do not move)
+			if rz := hx.Rand(f.Seed*65537 + int64(i)*31 + 7); rz.Intn(5) == 0 {
+				c.Ctx.TZ = processZones[rz.Intn(len(processZones))].name
+			}
+			out.Put(c)
 		}
 		for i := 0; i < f.N; i++ {
 			q, class := genQuery(r)
@@ -1914,6 +1936,44 @@ func main() {
 		for i := 0; i < f.N/8+6; i++ {
 			q, class := genLineFormat(r3)
 			put(r3, 2*f.N+i, q, class)
+		}
+		// process zones (round 6), again from a stream of their own: queries of every class planned by a reader whose
+		// process zone is not UTC, with a window that starts on the side of the UTC midnight where the calendar day of
+		// that zone (30 minutes before the start: the margin of FormatFromDate) is not the UTC day the writer dated the
+		// index rows by - a quarter exactly on the edge (local time 00:30, one nanosecond before / after), a few in UTC.
+		r4 := hx.Rand(f.Seed*15485863 + 11)
+		for i := 0; i < f.N/6+6; i++ {
+			var q string
+			var class []string
+			switch r4.Intn(5) {
+			case 0:
+				q, class = genLineFormat(r4)
+			case 1:
+				q, class = genEmptyLabelFilter(r4)
+			default:
+				q, class = genQuery(r4)
+			}
+			z := processZones[r4.Intn(len(processZones))]
+			day := int64(19700 + r4.Intn(30))
+			off := int64(z.off)
+			edge := ((1800-off)%86400 + 86400) % 86400 // the UTC time of day at which (start - 30 min) enters the next local day
+			var tod int64
+			switch k := r4.Intn(4); {
+			case k == 0:
+				tod = edge*1e9 + int64(r4.Intn(3)-1)
+			case off > 0:
+				tod = (edge+int64(r4.Intn(int(86400-edge))))*1e9 + int64(r4.Intn(2))*int64(r4.Intn(1e9))
+			case off < 0:
+				tod = (1800+int64(r4.Intn(int(edge-1800))))*1e9 + int64(r4.Intn(2))*int64(r4.Intn(1e9))
+			default:
+				tod = int64(r4.Intn(86400)) * 1e9
+			}
+			from := day*86400*1e9 + tod
+			out.Put(Case{ID: 3*f.N + i, Query: q, Class: append(class, "process-zone"), Runs: 1, Ctx: Ctx{
+				FromNs: from, ToNs: from + int64(1+r4.Intn(7200))*1e9,
+				Limit: []int64{0, 0, 1, 2, 100}[r4.Intn(5)], Asc: r4.Intn(2) == 0, Cluster: r4.Intn(4) == 0,
+				Type: []uint8{0, 1, 1, 2}[r4.Intn(4)], Finalize: r4.Intn(6) != 0, StepMs: 1000, TZ: z.name,
+			}})
 		}
 	case "dbselftest":
 		// the database builder on queries with non-ASCII values: every database has ONE label set per fingerprint (compared
